@@ -7,6 +7,7 @@
 #![allow(dead_code, dangerous_implicit_autorefs, unused_unsafe, static_mut_refs)]
 mod layout;
 mod mech;
+mod ptrs;
 mod tok;
 mod shapes;
 mod talloc;
@@ -62,6 +63,7 @@ fn main() {
         let obs: Vec<Vec<u64>> = match stream {
             "layout" => layout::run_case(&ops),
             "mech" => mech::run_case(&ops),
+            "ptr" => ptrs::run_case(&ops),
             _ => {
                 eprintln!("unknown stream {}", stream);
                 std::process::exit(2);
